@@ -101,6 +101,7 @@ def run_ambig_layered(case):
     contracts.clear()
     viol = []
     kw = dict(last_all_atom=not case['coarse_last'], legacy=case['legacy'])
+    contracts.CONTEXT['uncontrolled_aromatic'] = True
     multi, two = case['multi_string'], case['two_level']
     key = 'fragname' if case['coarse_last'] else 'element'
     nontrivial = False
@@ -120,6 +121,7 @@ def run_ambig_layered(case):
                               f'its flattening {two} in {len(aa2)} nodes / {aa2.number_of_edges()} bonds / {nx.number_connected_components(aa2)} molecules'))
     except Exception as err:
         viol.append(V('c06.exception.' + type(err).__name__, f'{multi} {kw} raised {type(err).__name__}: {err} although its flattening {two} resolves'))
+    contracts.CONTEXT.pop('uncontrolled_aromatic', None)
     for rec in contracts.take('C02') + contracts.take('C03') + contracts.take('C06'):
         viol.append(V('c06.step_' + rec['clause'], f'{multi} :: {rec["msg"]}'))
     contracts.clear()
